@@ -2,8 +2,10 @@ package ssaexec
 
 import (
 	"fmt"
+	"os"
 	"path/filepath"
 	"strconv"
+	"strings"
 
 	"golang.org/x/tools/go/ssa"
 
@@ -267,7 +269,17 @@ func init() {
 			if f, ok := x.holeValue(x.mustStr(a[0])); ok {
 				return f
 			}
-			panic(x.unsupported("vNumOf of a string that is no placeholder"))
+			if f, err := strconv.ParseFloat(strings.TrimSpace(x.mustStr(a[0])), 64); err == nil {
+				return x.C.FC(f)
+			}
+			panic(x.unsupported("vNumOf of a string that is neither a placeholder nor a numeral"))
+		},
+		"vReadFile": func(x *Exec, _ *ssa.Function, a []Value) Value {
+			b, err := os.ReadFile(x.mustStr(a[0]))
+			if err != nil {
+				panic(&engineError{msg: "vReadFile: " + err.Error()})
+			}
+			return Str{S: string(b)}
 		},
 		"vLoadTape": func(x *Exec, _ *ssa.Function, a []Value) Value { return nil },
 	}
